@@ -338,7 +338,7 @@ fn generic_params(victim: &str) -> Value {
 impl Body {
     /// The request for this body at `path` in encoding `enc`.
     pub fn request(&self, path: &str, auth: Auth, enc: Enc, victim: &str) -> Req {
-        let mut req = Req { get: false, path: path.to_string(), auth, content_type: Some(enc.content_type()), body: Vec::new() };
+        let mut req = Req { get: false, path: path.to_string(), auth, content_type: Some(enc.content_type()), body: Default::default() };
         match &self.kind {
             BodyKind::Method { name, variant } => {
                 let params = match variant {
@@ -353,16 +353,16 @@ impl Body {
                 } else {
                     json!({"method": name, "params": params})
                 };
-                req.body = enc.encode(&doc);
+                req.body = enc.encode(&doc).into();
             }
             BodyKind::Probe(kind) => {
-                let info = enc.encode(&json!({"method": "info"}));
+                let info: bytes::Bytes = enc.encode(&json!({"method": "info"})).into();
                 match *kind {
-                    "garbage" => req.body = b"\xff\xfe\x00 not a document {{[".to_vec(),
+                    "garbage" => req.body = bytes::Bytes::from_static(b"\xff\xfe\x00 not a document {{["),
                     "empty" => {}
                     "oversized" => {
                         let pad = "x".repeat(MAX_BODY + 1024);
-                        req.body = enc.encode(&json!({"method": "info", "params": {"pad": pad}}));
+                        req.body = enc.encode(&json!({"method": "info", "params": {"pad": pad}})).into();
                     }
                     "no-content-type" => {
                         req.content_type = None;
@@ -372,7 +372,7 @@ impl Body {
                         req.content_type = Some("text/plain");
                         req.body = info;
                     }
-                    "missing-method" => req.body = enc.encode(&json!({"params": {"collection": COLLECTION}})),
+                    "missing-method" => req.body = enc.encode(&json!({"params": {"collection": COLLECTION}})).into(),
                     other => unreachable!("probe {other}"),
                 }
             }
@@ -388,5 +388,35 @@ pub fn effect_at(tables: &Tables, target: &Target, name: &str) -> Option<Effect>
         tables.root.get(name).copied()
     } else {
         tables.db.get(name).copied()
+    }
+}
+
+/// Every body encoded once per (victim, encoding): the matrix sends each of
+/// them to every (principal, target).
+pub struct Prepared {
+    /// `[victim][body][enc]` -> (content type, bytes)
+    table: Vec<Vec<[(Option<&'static str>, bytes::Bytes); 2]>>,
+}
+
+impl Prepared {
+    pub fn new(bs: &[Body]) -> Prepared {
+        let table = (0..2)
+            .map(|victim| {
+                bs.iter()
+                    .map(|b| {
+                        [Enc::Cbor, Enc::Json].map(|enc| {
+                            let r = b.request("/", Auth::None, enc, DBS[victim]);
+                            (r.content_type, r.body)
+                        })
+                    })
+                    .collect()
+            })
+            .collect();
+        Prepared { table }
+    }
+
+    pub fn request(&self, bi: usize, path: &str, auth: Auth, enc: Enc, victim: usize) -> Req {
+        let (content_type, body) = &self.table[victim][bi][if enc == Enc::Cbor { 0 } else { 1 }];
+        Req { get: false, path: path.to_string(), auth, content_type: *content_type, body: body.clone() }
     }
 }
